@@ -5,6 +5,7 @@ import Driver.Validator
 import Driver.Addr
 import Driver.Acl
 import Driver.WsJson
+import Driver.HttpCodec
 
 def main (args : List String) : IO UInt32 := do
   match args with
@@ -15,6 +16,7 @@ def main (args : List String) : IO UInt32 := do
   | ["addr"] => AddrDrv.main; return 0
   | ["acl"] => AclDrv.main; return 0
   | ["wsjson"] => WsJsonDrv.main; return 0
+  | ["httpcodec"] => HttpCodecDrv.main; return 0
   | _ =>
     IO.eprintln "usage: driver <family>   (lines on stdin)"
     return 2
